@@ -5,14 +5,15 @@ METHODS = ['GET', 'PUT', 'POST', 'PATCH', 'DELETE', 'HEAD']
 def request(rng, close=False, big=False):
     path = rng.choice(['/', '/a', '/a/b', '/x%20y', '/a/b/c', '/%E3%81%82/z', '/a/', '//'])
     q = rng.choice(['', '', '?k=v', '?a=%41&b=', '?x'])
+    if rng.random() < 0.25: q = '?token=abc123&mode=full&page=2&' + '&'.join('k%d=%s' % (i, 'v' * rng.choice([1, 5, 12])) for i in range(rng.choice([1, 3, 8])))      # a long query: its region of the reused buffer later holds other requests' header lines
     m = rng.choice(METHODS)
     hs = []
     for _ in range(rng.choice([0, 1, 2, 4])):
         hs.append(rng.choice([('X-A', '1'), ('X-A', 'two'), ('X-B', 'b' * rng.choice([1, 30])), ('X-Ctx', 'ctx%d' % rng.randrange(100)), ('Host', 'h.example'), ('accept', 'a/b'), ('Accept', 'c/d'),
-                              ('Cookie', 'a=1; b=2'), ('x-lower', 'l'), ('User-Agent', 'u' * rng.choice([3, 200]))]))
+                              ('Cookie', 'a=1; b=2'), ('Cookie', 'sid=1'), ('X-Eq', 'p=q&r=s=t'), ('x-lower', 'l'), ('User-Agent', 'u' * rng.choice([3, 200]))]))
     if big: hs.append(('X-B', 'p' * rng.choice([600, 900])))
     body = b''
-    if m in ('POST', 'PUT', 'PATCH') and rng.random() < 0.8:
+    if (m in ('POST', 'PUT', 'PATCH') and rng.random() < 0.8) or rng.random() < 0.15:          # any method may carry a body (GET / HEAD / DELETE too)
         n = rng.choice([1, 3, 17, 200, 900, 1100, 3000])
         body = bytes(rng.randrange(256) for _ in range(n))
         if rng.random() < 0.25: body = b'\x00' + body[1:]
